@@ -58,9 +58,11 @@ fn compile(files: &[(String, String)]) -> Outcome {
     GLOBALS.set(&Globals::new(), || {
         let mut fs = BTreeMap::new();
         let mut lens: BTreeMap<String, usize> = BTreeMap::new();
+        let mut texts: BTreeMap<String, String> = BTreeMap::new();
         for (name, text) in files {
             let f = BffFileName::new(name.clone());
             lens.insert(name.clone(), text.len());
+            texts.insert(name.clone(), text.clone());
             match parse_and_bind(&mut Res {}, &f, text) {
                 Ok(m) => {
                     fs.insert(f, m);
@@ -83,6 +85,16 @@ fn compile(files: &[(String, String)]) -> Outcome {
                         };
                         if !(l.offset_lo <= l.offset_hi && l.offset_hi <= *len + 1) {
                             return Outcome::Bad(format!("a diagnostic's range {}..{} lies outside {} ({} bytes)", l.offset_lo, l.offset_hi, l.file_name.to_string(), len));
+                        }
+                        let text = &texts[&l.file_name.to_string()];
+                        let lines: Vec<&str> = text.split('\n').collect();
+                        for lc in [&l.loc_lo, &l.loc_hi] {
+                            if !(lc.line >= 1 && lc.line <= lines.len()) {
+                                return Outcome::Bad(format!("a diagnostic's line {} lies outside {} ({} lines)", lc.line, l.file_name.to_string(), lines.len()));
+                            }
+                            if lc.col.0 > lines[lc.line - 1].chars().count() {
+                                return Outcome::Bad(format!("a diagnostic's column {} lies outside line {} of {} ({} characters)", lc.col.0, lc.line, l.file_name.to_string(), lines[lc.line - 1].chars().count()));
+                            }
                         }
                     }
                     Location::Unknown(u) => {
@@ -185,6 +197,10 @@ fn programs(depth: usize) -> Vec<(String, Vec<(String, String)>)> {
         ("default export re-exported", vec![("t.ts", "const x = [1, 2] as const;\nexport default x;\n"), ("m.ts", "import d from \"./t\";\nexport default d;\n"), ("entry.ts", "import d from \"./m\";\ntype X = typeof d;\nparse.buildParsers<{ X: X }>();\n")]),
         ("default export of an arrow function, typeof import", vec![("t.ts", "export default (() => 1);\n"), ("entry.ts", "import d from \"./t\";\ntype X = typeof d;\nparse.buildParsers<{ X: X }>();\n")]),
         ("typeof of an imported const with an unsupported initialiser", vec![("t.ts", "export const v = new Date();\nexport const w = { a: v, b: () => 1 };\n"), ("entry.ts", "import { v, w } from \"./t\";\ntype X = typeof v;\ntype Y = typeof w;\nparse.buildParsers<{ X: X, Y: Y }>();\n")]),
+        ("default export of an object literal with a member that cannot be typed, long file", vec![("lib.ts", "// padding padding padding padding padding padding padding\n// padding padding padding padding padding padding padding\n// padding padding padding padding padding padding padding\n// padding padding padding padding padding padding padding\n// padding padding padding padding padding padding padding\n// padding padding padding padding padding padding padding\n// padding padding padding padding padding padding padding\n// padding padding padding padding padding padding padding\n// padding padding padding padding padding padding padding\n// padding padding padding padding padding padding padding\n// padding padding padding padding padding padding padding\n// padding padding padding padding padding padding padding\nexport default { a: \"x\", b: /re/ };\n"), ("entry.ts", "import d from \"./lib\";\nparse.buildParsers<{ D: typeof d }>();\n")]),
+        ("default-exported identifier bound to an object with a member that cannot be typed, long file", vec![("lib.ts", "// padding padding padding padding padding padding padding\n// padding padding padding padding padding padding padding\n// padding padding padding padding padding padding padding\n// padding padding padding padding padding padding padding\n// padding padding padding padding padding padding padding\n// padding padding padding padding padding padding padding\n// padding padding padding padding padding padding padding\n// padding padding padding padding padding padding padding\n// padding padding padding padding padding padding padding\n// padding padding padding padding padding padding padding\n// padding padding padding padding padding padding padding\n// padding padding padding padding padding padding padding\nconst v = { a: \"x\", b: /re/ };\nexport default v;\n"), ("entry.ts", "import d from \"./lib\";\nparse.buildParsers<{ D: typeof d }>();\n")]),
+        ("named export of a const with a member that cannot be typed, long file", vec![("lib.ts", "// padding padding padding padding padding padding padding\n// padding padding padding padding padding padding padding\n// padding padding padding padding padding padding padding\n// padding padding padding padding padding padding padding\n// padding padding padding padding padding padding padding\n// padding padding padding padding padding padding padding\n// padding padding padding padding padding padding padding\n// padding padding padding padding padding padding padding\n// padding padding padding padding padding padding padding\n// padding padding padding padding padding padding padding\n// padding padding padding padding padding padding padding\n// padding padding padding padding padding padding padding\nexport const v = { a: \"x\", b: /re/ };\n"), ("entry.ts", "import { v } from \"./lib\";\nparse.buildParsers<{ D: typeof v }>();\n")]),
+        ("type error deep in an imported file, long file", vec![("lib.ts", "// padding padding padding padding padding padding padding\n// padding padding padding padding padding padding padding\n// padding padding padding padding padding padding padding\n// padding padding padding padding padding padding padding\n// padding padding padding padding padding padding padding\n// padding padding padding padding padding padding padding\n// padding padding padding padding padding padding padding\n// padding padding padding padding padding padding padding\n// padding padding padding padding padding padding padding\n// padding padding padding padding padding padding padding\n// padding padding padding padding padding padding padding\n// padding padding padding padding padding padding padding\nexport type T = { a: Missing };\n"), ("entry.ts", "import { T } from \"./lib\";\nparse.buildParsers<{ T: T }>();\n")]),
         ("export star", vec![("t.ts", "export type X = { a: string };\n"), ("m.ts", "export * from \"./t\";\n"), ("entry.ts", "import { X } from \"./m\";\nparse.buildParsers<{ X: X }>();\n")]),
         ("namespace import", vec![("t.ts", "export type X = { a: string };\n"), ("entry.ts", "import * as T from \"./t\";\nparse.buildParsers<{ X: T.X }>();\n")]),
         ("unterminated type", vec![("entry.ts", "type X = { a: string;\nparse.buildParsers<{ X: X }>();\n")]),
